@@ -1,4 +1,5 @@
 import DyntplV.Esc.Html
+import DyntplV.HexLemmas
 /-!
 # C08 — HTML and attribute escaping neutralise markup and decode back to the input
 -/
@@ -71,5 +72,166 @@ theorem html_iter_roundtrip (n : Nat) (s : Bytes) : unescapeN n (escapeN n s) = 
 example : escape (lit "<a href='x'>&amp;") = lit "&lt;a href=&#39;x&#39;&gt;&amp;amp;" := by decide
 example : unescape (lit "&#x41;&#65;&bogus;&") = some (lit "AA&bogus;&") := by decide
 example : alphabetOK (lit "a<b") = false := by decide
+
+end DyntplV.C08
+
+/-! ### Attribute escape (rune level) -/
+namespace DyntplV.C08
+open DyntplV DyntplV.Html
+
+/-- What a decoder must return for rune `r`: the rune itself, or U+FFFD for the control characters the
+    escaper deliberately replaces. -/
+def attrOut (r : Nat) : Nat := if isAttrCtl r then 0xFFFD else r
+
+theorem attr_safe_facts : ∀ n : Fin 128, isAttrSafe n.val = true →
+    (UInt8.ofNat n.val != 38) = true ∧ isAttrCtl n.val = false ∧ (UInt8.ofNat n.val).toNat = n.val := by
+  decide +kernel
+
+theorem attr_safe_lt (r : Nat) (h : isAttrSafe r = true) : r < 128 := by
+  simp [isAttrSafe] at h; omega
+
+theorem refCp_id (r : Nat) (h0 : r ≠ 0) (hs : isScalar r = true) : refCp r = r := by
+  simp [isScalar] at hs
+  simp [refCp, h0]
+  omega
+
+theorem isHex_semi : isHex 59 = false := by decide
+
+/-- The decoder on a hexadecimal reference with explicit digits. -/
+theorem dec_ref2 (a b : UInt8) (ha : isHex a = true) (hb : isHex b = true) (rest : Bytes) :
+    decUnit ([38, 35, 120, a, b, 59] ++ rest) = some (utf8Enc (refCp (hexVal [a, b])), rest) := by
+  simp [decUnit, stripPrefix, spanP_cons_true, spanP_cons_false, ha, hb, isHex_semi]
+theorem dec_ref4 (a b c d : UInt8) (ha : isHex a = true) (hb : isHex b = true) (hc : isHex c = true)
+    (hd' : isHex d = true) (rest : Bytes) :
+    decUnit ([38, 35, 120, a, b, c, d, 59] ++ rest) = some (utf8Enc (refCp (hexVal [a, b, c, d])), rest) := by
+  simp [decUnit, stripPrefix, spanP_cons_true, spanP_cons_false, ha, hb, hc, hd', isHex_semi]
+theorem dec_ref5 (a b c d e : UInt8) (ha : isHex a = true) (hb : isHex b = true) (hc : isHex c = true)
+    (hd' : isHex d = true) (he : isHex e = true) (rest : Bytes) :
+    decUnit ([38, 35, 120, a, b, c, d, e, 59] ++ rest) = some (utf8Enc (refCp (hexVal [a, b, c, d, e])), rest) := by
+  simp [decUnit, stripPrefix, spanP_cons_true, spanP_cons_false, ha, hb, hc, hd', he, isHex_semi]
+theorem dec_ref6 (a b c d e f : UInt8) (ha : isHex a = true) (hb : isHex b = true) (hc : isHex c = true)
+    (hd' : isHex d = true) (he : isHex e = true) (hf : isHex f = true) (rest : Bytes) :
+    decUnit ([38, 35, 120, a, b, c, d, e, f, 59] ++ rest) = some (utf8Enc (refCp (hexVal [a, b, c, d, e, f])), rest) := by
+  simp [decUnit, stripPrefix, spanP_cons_true, spanP_cons_false, ha, hb, hc, hd', he, hf, isHex_semi]
+
+/-- Step lemma: the reference decoder undoes one attribute-escaped rune, whatever follows. -/
+theorem decUnit_attrRune (r : Nat) (hs : isScalar r = true) (rest : Bytes) :
+    decUnit (attrRune r ++ rest) = some (utf8Enc (attrOut r), rest) := by
+  have hlt : r < 0x110000 := by simp [isScalar] at hs; omega
+  unfold attrRune
+  split
+  · next h => have : r = 38 := by simpa using h
+              subst this; rfl
+  split
+  · next h => have : r = 60 := by simpa using h
+              subst this; rfl
+  split
+  · next h => have : r = 62 := by simpa using h
+              subst this; rfl
+  split
+  · next h => have : r = 34 := by simpa using h
+              subst this; rfl
+  split
+  · next h =>
+    have hl := attr_safe_lt r h
+    obtain ⟨f1, f2, f3⟩ := attr_safe_facts ⟨r, hl⟩ h
+    simp only at f1 f2 f3
+    simp only [List.cons_append, List.nil_append, decUnit, f1, attrOut, f2]
+    simp [utf8Enc, hl]
+  split
+  · next h =>
+    simp only [attrOut, h, if_true]
+    rfl
+  · next hctl =>
+    have hc : isAttrCtl r = false := by simpa using hctl
+    have h0 : r ≠ 0 := by intro e; subst e; simp [isAttrCtl] at hc
+    have hcp := refCp_id r h0 hs
+    have hx : ∀ x, x = r → utf8Enc (refCp x) = utf8Enc (attrOut r) := by
+      intro x e; subst e; simp [attrOut, hc, hcp]
+    split
+    · next hsm =>
+      rw [pad2_eq r (by omega)]
+      have := dec_ref2 (hd r 16) (hd r 1) (isHex_hd _ _) (isHex_hd _ _) rest
+      simp only [List.cons_append, List.nil_append] at this ⊢
+      rw [this]; congr 2; apply hx
+      simp [hexVal, unhex_hd, toNat_nib]; omega
+    · next hbig =>
+      by_cases h4 : r < 0x10000
+      · rw [pad4_eq r h4]
+        have := dec_ref4 (hd r 4096) (hd r 256) (hd r 16) (hd r 1) (isHex_hd _ _) (isHex_hd _ _) (isHex_hd _ _) (isHex_hd _ _) rest
+        simp only [List.cons_append, List.nil_append] at this ⊢
+        rw [this]; congr 2; apply hx
+        simp [hexVal, unhex_hd, toNat_nib]; omega
+      · by_cases h5 : r < 0x100000
+        · rw [pad4_big5 r (by omega) h5]
+          have := dec_ref5 (hd r 65536) (hd r 4096) (hd r 256) (hd r 16) (hd r 1) (isHex_hd _ _) (isHex_hd _ _) (isHex_hd _ _) (isHex_hd _ _) (isHex_hd _ _) rest
+          simp only [List.cons_append, List.nil_append] at this ⊢
+          rw [this]; congr 2; apply hx
+          simp [hexVal, unhex_hd, toNat_nib]; omega
+        · rw [pad4_big6 r (by omega)]
+          have := dec_ref6 (hd r 1048576) (hd r 65536) (hd r 4096) (hd r 256) (hd r 16) (hd r 1) (isHex_hd _ _) (isHex_hd _ _) (isHex_hd _ _) (isHex_hd _ _) (isHex_hd _ _) (isHex_hd _ _) rest
+          simp only [List.cons_append, List.nil_append] at this ⊢
+          rw [this]; congr 2; apply hx
+          simp [hexVal, unhex_hd, toNat_nib]; omega
+
+theorem attrRune_pos (r : Nat) : 0 < (attrRune r).length := by
+  unfold attrRune
+  split; · simp
+  split; · simp
+  split; · simp
+  split; · simp
+  split; · simp
+  split; · simp
+  split <;> simp
+
+/-- **Attribute round trip**: for every list of scalar values, decoding the escaped text with the general
+    reference decoder returns the original text, except that the control characters the escaper
+    deliberately replaces come back as U+FFFD. -/
+theorem attr_roundtrip_mod_controls (cs : List Nat) (hcs : ∀ r ∈ cs, isScalar r = true) :
+    unescape (attrEscapeRunes cs) = some (utf8Encode (cs.map attrOut)) := by
+  have key := decLoop_roundtrip_on (fun r : Nat => isScalar r = true) decUnit attrRune (fun r => utf8Enc (attrOut r))
+    (fun r hr rest => decUnit_attrRune r hr rest) attrRune_pos cs hcs _ (Nat.le_refl _)
+  unfold unescape attrEscapeRunes
+  rw [key]
+  simp [utf8Encode, List.flatMap_map]
+
+theorem hd_lower_or_digit (r k : Nat) : isHex (hd r k) = true := isHex_hd r k
+
+theorem al_attrRune (r : Nat) (hlt : r < 0x110000) : (attrRune r).foldl attrAlStep (some 0) = some 0 := by
+  unfold attrRune
+  split; · rfl
+  split; · rfl
+  split; · rfl
+  split; · rfl
+  split
+  · next h =>
+    have hl := attr_safe_lt r h
+    obtain ⟨f1, _, f3⟩ := attr_safe_facts ⟨r, hl⟩ h
+    simp only at f1 f3
+    have f1' : (UInt8.ofNat r == 38) = false := by simpa using f1
+    simp [attrAlStep, f1', f3, h]
+  split; · rfl
+  split
+  · rw [pad2_eq r (by omega)]
+    simp [attrAlStep, isHex_hd, hd_ne_semi, isHex_semi]
+  · by_cases h4 : r < 0x10000
+    · rw [pad4_eq r h4]; simp [attrAlStep, isHex_hd, hd_ne_semi, isHex_semi]
+    · by_cases h5 : r < 0x100000
+      · rw [pad4_big5 r (by omega) h5]; simp [attrAlStep, isHex_hd, hd_ne_semi, isHex_semi]
+      · rw [pad4_big6 r (by omega)]; simp [attrAlStep, isHex_hd, hd_ne_semi, isHex_semi]
+
+/-- **Attribute alphabet**: only ASCII letters, digits, `, . - _` and character references. -/
+theorem attr_alphabet (cs : List Nat) (hcs : ∀ r ∈ cs, r < 0x110000) : attrAlphabetOK (attrEscapeRunes cs) = true := by
+  have : (attrEscapeRunes cs).foldl attrAlStep (some 0) = some 0 := by
+    unfold attrEscapeRunes
+    induction cs with
+    | nil => rfl
+    | cons r cs ih =>
+      simp only [List.flatMap_cons, List.foldl_append, al_attrRune r (hcs r (by simp))]
+      exact ih (fun x hx => hcs x (by simp [hx]))
+  simp [attrAlphabetOK, this]
+
+example : attrEscapeRunes [0x41, 0x27, 0xe9, 0x01, 0x1f600] = lit "A&#x27;&#x00e9;&#xFFFD;&#x1f600;" := by decide
+example : unescape (lit "A&#x27;&#x00e9;&#xFFFD;") = some [0x41, 0x27, 0xc3, 0xa9, 0xef, 0xbf, 0xbd] := by decide
 
 end DyntplV.C08
